@@ -11,6 +11,7 @@ import (
 	"encoding/json"
 	"flag"
 	"fmt"
+	ldb "massnet.org/mass/poc/wallet/db/ldb"
 	"os"
 	"path/filepath"
 	"sort"
@@ -193,8 +194,85 @@ func (e *env) wrapped(s db.DB) db.DB {
 func hexDecode(s string) ([]byte, error) { return hex.DecodeString(s) }
 func removeAll(d string)                 { os.RemoveAll(d) }
 
+// storeAudit: the flat keyspace under the bucket store holds nothing the tree of buckets does not account for -
+// every bucket index entry has its parent's index entry, every other key lies in an indexed bucket, and the
+// keystore buckets are exactly the managed keystores (C02: nothing unacknowledged appears; C12: never a partially
+// created or deleted keystore).
+func (e *env) storeAudit() {
+	l, ok := e.store.(*ldb.LevelDB)
+	if !ok || e.kmc == nil {
+		return
+	}
+	e.h.Res.OracleEvals++
+	paths := map[string]bool{} // "<depth>_<n1>_..._<nd>" of every indexed bucket
+	var others []string
+	it := l.LDb.NewIterator(nil, nil)
+	for it.Next() {
+		k := string(it.Key())
+		if strings.HasPrefix(k, "b_") {
+			paths[k[2:]] = true
+		} else {
+			others = append(others, k)
+		}
+	}
+	it.Release()
+	parent := func(p string) (string, bool) { // "3_a_b_c" -> "2_a_b"
+		parts := strings.Split(p, "_")
+		d, err := strconv.Atoi(parts[0])
+		if err != nil || d != len(parts)-1 || d < 1 {
+			return "", false
+		}
+		if d == 1 {
+			return "", true
+		}
+		return strconv.Itoa(d-1) + "_" + strings.Join(parts[1:len(parts)-1], "_"), true
+	}
+	for p := range paths {
+		pp, wf := parent(p)
+		if !wf {
+			e.fail(e.auditProp(), "store-malformed-bucket-path", "the store holds the bucket index entry %q, which is not a bucket path", p)
+		} else if pp != "" && !paths[pp] {
+			e.fail(e.auditProp(), "store-orphan-bucket", "the store holds the bucket %q although its parent bucket %q does not exist", p, pp)
+		}
+	}
+	for _, k := range others {
+		found := false
+		for p := range paths {
+			if strings.HasPrefix(k, p+"_") {
+				found = true
+				break
+			}
+		}
+		if !found {
+			e.fail(e.auditProp(), "store-orphan-row", "the store holds the key %q, which lies in no existing bucket", k)
+			break
+		}
+	}
+	// keystore buckets (second level under the manager's top-level bucket) = managed keystores
+	managed := map[string]bool{}
+	for _, n := range e.kmc.ListKeystoreNames() {
+		managed[n] = true
+	}
+	for p := range paths {
+		parts := strings.Split(p, "_")
+		if parts[0] == "2" && len(parts) == 3 && strings.HasPrefix(parts[2], "ac") && !managed[parts[2]] {
+			e.fail(e.auditProp(), "store-keystore-not-managed", "the store holds a bucket for keystore %s, which the wallet does not manage", parts[2])
+		}
+	}
+}
+
+func (e *env) auditProp() string {
+	if e.focus == "C12" {
+		return "C12"
+	}
+	return "C02"
+}
+
 // ---- dump + invariants on the implementation ----
 func (e *env) dump() string {
+	if !e.quiet {
+		e.storeAudit()
+	}
 	unlocked, ks := e.kmc.VerifDump()
 	type row struct {
 		id int
